@@ -10,6 +10,9 @@ use crate::refint::{self, RefOpts, RefOutcome, RefTrace};
 use serde_json::{json, Value};
 
 pub mod c01;
+pub mod dynamic;
+pub mod hazard;
+pub mod values;
 
 pub struct Meta {
     pub id: &'static str,
@@ -26,13 +29,36 @@ pub struct Meta {
 pub fn meta(prop: &str) -> Option<Meta> {
     Some(match prop {
         "C01" => c01::META,
+        "C02" => dynamic::META_C02,
+        "C03" => dynamic::META_C03,
+        "C04" => dynamic::META_C04,
+        "C05" => dynamic::META_C05,
+        "C06" => dynamic::META_C06,
+        "C07" => values::META_C07,
+        "C08" => values::META_C08,
+        "C10" => hazard::META_C10,
+        "C17" => hazard::META_C17,
+        "C14" => dynamic::META_C14,
+        "C18" => dynamic::META_C18,
         _ => return None,
     })
 }
 
-pub fn run_case(prop: &str, case_seed: u64, acc: &mut Acc) {
+pub fn run_case(prop: &str, index: u64, case_seed: u64, acc: &mut Acc) {
+    acc.cur_index = index;
     match prop {
         "C01" => c01::run(case_seed, acc),
+        "C02" => dynamic::c02(case_seed, acc),
+        "C03" => dynamic::c03(case_seed, acc),
+        "C04" => dynamic::c04(case_seed, acc),
+        "C05" => dynamic::c05(case_seed, acc),
+        "C06" => dynamic::c06(case_seed, acc),
+        "C07" => values::c07(index, case_seed, acc),
+        "C08" => values::c08(case_seed, acc),
+        "C10" => hazard::c10(case_seed, acc),
+        "C17" => hazard::c17(case_seed, acc),
+        "C14" => dynamic::c14(case_seed, acc),
+        "C18" => dynamic::c18(case_seed, acc),
         _ => panic!("unknown property {prop}"),
     }
 }
@@ -41,6 +67,10 @@ pub fn run_case(prop: &str, case_seed: u64, acc: &mut Acc) {
 pub fn run_exhaustive(prop: &str, tier: &str, acc: &mut Acc) -> Value {
     match prop {
         "C01" => c01::exhaustive(tier, acc),
+        "C03" => dynamic::c03_exhaustive(acc),
+        "C05" => dynamic::c05_exhaustive(tier, acc),
+        "C08" => values::c08_exhaustive(tier, acc),
+        "C10" => hazard::c10_exhaustive(acc),
         _ => json!(null),
     }
 }
@@ -68,10 +98,60 @@ pub struct Ran {
     pub real: RealTrace,
 }
 
+/// Flatten the per-step hook logs into the sequence the reference consumes.
+pub fn flatten_draws(real: &RealTrace) -> Vec<crate::refint::Draw> {
+    let mut v = vec![];
+    for st in &real.steps {
+        for d in &st.draws {
+            match d {
+                DrawRec::NewContext(_) => {}
+                DrawRec::Reset => v.push(crate::refint::Draw::Reset),
+                DrawRec::Draw { bound, value } => v.push(crate::refint::Draw::Draw {
+                    bound: *bound,
+                    value: *value,
+                }),
+            }
+        }
+    }
+    v
+}
+
+pub const REAL_STEP_CAP: usize = 450;
+
 /// Reference first (its verdict on feasibility decides whether the case is run at all),
-/// then the real crate with the same script. Counts events into `acc`.
+/// then the real crate with the same script. For programs using `random` the real run goes
+/// first (seed pinned through the hook) and the reference replays its draw log.
+/// Counts events into `acc`.
 pub fn standard_run(case: &Case, acc: &mut Acc, opts: Option<RefOpts>) -> Option<Ran> {
     let pr = pp::print(&case.program, &case.layout_opts);
+    if case.program.uses_random() {
+        let real = run_text(
+            &pr.text,
+            &case.signals,
+            &case.script,
+            &RunOpts {
+                max_steps: REAL_STEP_CAP,
+                probe_after_end: 2,
+                stop_at_error: true,
+                seed: Some(case.rng_seed),
+            },
+        );
+        if real.steps.len() >= REAL_STEP_CAP {
+            acc.inconclusive("real run reached the step cap (program too long)");
+            return None;
+        }
+        let mut o = opts.unwrap_or_default();
+        o.draws = Some(flatten_draws(&real));
+        let rf = match refint::run(&case.program, &case.signals, &case.script, o) {
+            RefOutcome::Done(t) => t,
+            RefOutcome::Inconclusive(why) => {
+                acc.inconclusive(&format!("reference: {why}"));
+                return None;
+            }
+        };
+        count_events(acc, &real);
+        return Some(Ran { pr, rf, real });
+    }
     let rf = match refint::run(
         &case.program,
         &case.signals,
@@ -97,6 +177,22 @@ pub fn standard_run(case: &Case, acc: &mut Acc, opts: Option<RefOpts>) -> Option
     );
     count_events(acc, &real);
     Some(Ran { pr, rf, real })
+}
+
+/// Draw accounting (C17 b/c): the reference must have consumed the hook log exactly.
+pub fn draw_accounting(ran: &Ran) -> Option<Finding> {
+    if let Some(crate::refint::RefItem::Err(crate::refint::RefErr::NotImplemented(m))) = ran.rf.items.last() {
+        if m.starts_with("draw-accounting") {
+            return Some(Finding::new("draw-accounting", m.clone()));
+        }
+    }
+    if ran.rf.draws_left > 0 {
+        return Some(Finding::new(
+            "draw-accounting",
+            format!("{} logged draw/reset events are not accounted for by any evaluation the program prescribes", ran.rf.draws_left),
+        ));
+    }
+    None
 }
 
 pub fn count_events(acc: &mut Acc, real: &RealTrace) {
